@@ -535,9 +535,21 @@ func rootFieldDeps(v ssa.Value, seen map[ssa.Value]bool, out map[string]bool) {
 		}
 	}
 	if phi, ok := v.(*ssa.Phi); ok {
-		// loop-carried: depends on the loop condition too
+		// a φ also depends on what decided which way it was entered: the branch at the end of each predecessor, and —
+		// for the φ of a loop header (the header's own test decides whether the body runs again) — the header's branch
 		b := phi.Block()
-		if len(b.Instrs) > 0 {
+		isHeader := false
+		for _, p := range b.Preds {
+			if b.Dominates(p) {
+				isHeader = true
+			}
+			if len(p.Instrs) > 0 {
+				if iff, ok := p.Instrs[len(p.Instrs)-1].(*ssa.If); ok {
+					rootFieldDeps(iff.Cond, seen, out)
+				}
+			}
+		}
+		if isHeader && len(b.Instrs) > 0 {
 			if iff, ok := b.Instrs[len(b.Instrs)-1].(*ssa.If); ok {
 				rootFieldDeps(iff.Cond, seen, out)
 			}
